@@ -256,7 +256,7 @@ Definition build (rec : option pkind -> list token -> res (list struct))
   | PLamFilter => bind (rec (Some PLamFilter) first_b) (fun b => Ok (SLamOp OpFilter b))
   | PLamSort => bind (rec (Some PLamSort) first_b) (fun b => Ok (SLamOp OpSort b))
   | PIf => bind (map_res (rec (Some (por parent PIf))) branches) (fun bs => Ok (SIf bs))
-  | _ => bind (map_res (rec (Some (por parent PList))) branches) (fun bs => Ok (SList bs))
+  | _ => bind (map_res (rec (Some PList)) branches) (fun bs => Ok (SList bs))   (* list items never inherit the parent *)
   end.
 
 Definition mod_kind (n : nat) : pkind :=
